@@ -261,6 +261,7 @@ class C01(Prop):
             req = [e for e in t.sent[n0:] if isinstance(e[2], F.RequestResponseFrame)]
             return req[-1][2].stream_id if req else None
         want_req, want_resp, got_resp = [], [], []
+        leftovers = []
         sz = case['sizes']
         for rnd in range(case['rounds'] + 1):
             t = R.transports[rnd]
@@ -334,11 +335,13 @@ class C01(Prop):
                     break
             await loop.settle()
             await loop.advance(100)
+            # the new connection has seen no traffic yet and every interaction of the old one is over
+            leftovers.append([sorted(c._frame_fragment_cache._frames_by_stream_id.keys()), sorted(c._stream_control._streams.keys())])
         try:
             await c.close()
         except Exception:
             pass
-        return {'want_req': want_req, 'got_req': served, 'want_resp': want_resp, 'got_resp': got_resp}
+        return {'want_req': want_req, 'got_req': served, 'want_resp': want_resp, 'got_resp': got_resp, 'leftovers': leftovers}
 
     async def _scenario(self, loop, case):
         from rsocket.rsocket_client import RSocketClient
